@@ -21,10 +21,6 @@ Limits24    == {2, 4}
 Limits2     == {2}
 Limits3     == {3}
 
-\* (for `-coverage 1` runs only: TLC evaluates the constant-level definition Room!Prefix3 - a state resolution - at start-up,
-\* which exhausts the heap under coverage instrumentation; Backfill_cov.cfg replaces it, and uses creation prefix 1)
-CheapPrefix3 == [E |-> Prefix, after |-> [i \in 1..6 |-> 1..i]]
-
 EvJson(EM, i) == [id |-> i, type |-> EM[i].type, sender |-> EM[i].sender, skey |-> EM[i].skey,
                   membership |-> EM[i].membership, plu |-> EM[i].plu, jr |-> EM[i].jr,
                   prev |-> EM[i].prev, auth |-> EM[i].auth, depth |-> EM[i].depth, ts |-> EM[i].ts,
